@@ -511,6 +511,8 @@ def standard_check(ctx, plug):
     }
     if hasattr(plug, "stats"):
         cov["distribution"] = plug.stats(cases, impl)
+    if hasattr(plug, "extra_coverage"):
+        cov.update(plug.extra_coverage(ctx) or {})
     ctx.write_evidence(cov, getattr(plug, "ASSUMPTIONS", []))
     return 1 if ctx.violations else 0
 
